@@ -1,4 +1,5 @@
 """R-CLOSE (C11): flush scope, close sequence, front-end nullify."""
+import re
 from ..extract import AnalysisBroken
 from ..sem import term, unwrap, real_args, Sem
 from .r_hdr import HdrInterp, FH
@@ -341,6 +342,28 @@ def run_hid_owner(prog, rep):
                 rule.check(not risky, key, rep.where(v), f.label(), 'id from %s goes straight to %s' % (src[0].callee.get('name'), transfer.src(30)),
                            'the id from %s sits in the local %s while %s can throw: the exception leaves the object open inside libhdf5 (for a file: a refused open keeps the file open with the refused access mode, '
                            'a later ReadOnly open of the same path inherits write access)' % (src[0].callee.get('name'), name, ', '.join(risky[:3])))
+    # a wrapper constructed with is_copy = true takes an ADDITIONAL reference: correct for an id somebody else owns, a leak for an id
+    # that an HDF5 call has just returned (the caller already owns that reference)
+    NEWID = re.compile(r'^H5(F(open|create|reopen)|I(get_file_id)|G(open|create)\d?|D(open|create)\d?|A(open|create)\w*|T(copy|create|open)\d?|S(create\w*|copy)|P(create|copy)|Oopen\w*|Dget_(space|type)|Aget_(space|type)|Tget_member_type|Tget_super)$')
+    ncopy = 0
+    for f in sorted(prog.funcs.values(), key=lambda f: (f.file, f.line)):
+        if f.body is None or not f.q.startswith('nix::hdf5::'):
+            continue
+        for x in f.walk():
+            if x.k != 'construct' or not ((x.callee or {}).get('cls') or '').startswith('nix::hdf5::'):
+                continue
+            args = [a for a in x.c if a is not None]
+            if len(args) != 2:
+                continue
+            flag = term(unwrap(args[1]))
+            src = unwrap(args[0])
+            if flag != ('k', True):
+                continue
+            ncopy += 1
+            fresh = src.k == 'call' and not (src.callee or {}).get('cls') and NEWID.match((src.callee or {}).get('name') or '')
+            rule.check(not fresh, '%s|is_copy@%s' % (f.q, x.l), rep.where(x), f.label(), 'is_copy = true on an id owned elsewhere (%s)' % args[0].src(30),
+                       'the id just returned by %s is wrapped with is_copy = true: the wrapper adds a second reference and releases only one, so every call leaks a reference '
+                       '(for H5Iget_file_id: on the file id - close() returns but libhdf5 keeps the file open, unflushed and locked)' % ((src.callee or {}).get('name')))
     if n < 1:
         raise AnalysisBroken('R-HIDOWN: no raw local HDF5 id found (anchor: H5Group::objectOfType)')
     return rule
